@@ -46,7 +46,7 @@ def default_private_objects(feats: Sequence[str], res: Dict[str, Any]) -> List[s
         if s is None:
             return []
         for k, o in s.allobjects.items():
-            if not o.isVisible or ' ' in k:
+            if not o.isVisible or ' ' in k or site.unreachable_through_contents(o):
                 continue
             ref = private_by_name(o)
             if ref != o.isPrivate and not any(a in ('--privacy',) for a in site.project(feats)[1]):
@@ -63,7 +63,8 @@ def objects_of(feats: Sequence[str]) -> List[str]:
         s = r.system
         if s is None:
             return []
-        return [k for k, o in s.allobjects.items() if o.isVisible and ' ' not in k and k not in ('pk',)]
+        # (objects inside a module that was replaced in its package's contents are never written at all: C11 known finding, not a target here)
+        return [k for k, o in s.allobjects.items() if o.isVisible and ' ' not in k and k not in ('pk',) and not site.unreachable_through_contents(o)]
 
 
 def pattern_for(name: str) -> str:
@@ -99,7 +100,7 @@ def judge_hidden(feats: Sequence[str], targets: Sequence[str], form: str, res: D
                 res['violations'].append(core.violation('/'.join(sig), f'{list(feats)} with {t} hidden ({form}): {what}', case))
         # the rest of the site must still be consistent (no dead links introduced by hiding)
         for sig, what in site.crawl(str(r.out), r.system, pages):
-            if sig[2] in ('superseded-duplicate',) or sig[1] == 'all-documents.url' or sig[2] == 'hierarchy-entry-below-superseded-class':
+            if sig[2] in ('superseded-duplicate',) or sig[1] == 'all-documents.url' or sig[2] in ('hierarchy-entry-below-superseded-class', 'inside-replaced-module') or sig[1] == 'inside-replaced-module':
                 continue      # C11 known findings
             if ('after-hiding',) + sig not in seen:
                 seen.add(('after-hiding',) + sig)
